@@ -12,7 +12,7 @@ JSON-lines driver for the gbnf engine: one request per line on stdin, one reply 
           {"op":"chain","chain":[constraint…]} -> {"frag":s,"deciding":kind|null} | {"raise":true}
 field: {"name":s,"lower":s,"chain":null | [constraint…]}
 constraint: {"k":"REQ"|"OPT"|"DIR"|"APPEND_ONLY"|"RANGE"|"MAX_LENGTH"|"DATE"|"ISO8601"|"OTHER"} | {"k":"ENUM","a":[s…]}
-          | {"k":"CONST","s":s} | {"k":"TYPE","t":s} | {"k":"REGEX","p":s} | {"k":"MIN_LENGTH","n":int}
+          | {"k":"CONST","s":str(value),"py":"bool"|"none"|"other"} | {"k":"TYPE","t":s} | {"k":"REGEX","p":s} | {"k":"MIN_LENGTH","n":int}
 -/
 import Lean.Data.Json
 import Octave.Model.Gbnf
@@ -43,7 +43,13 @@ def constraintOfJson (j : Json) : Except String Constraint := do
   | "ENUM" => do
     let a ← j.getObjValAs? (Array String) "a"
     pure (.enum (a.toList.map String.toList))
-  | "CONST" => do pure (.const (← strOf j "s"))
+  | "CONST" => do
+    let py ← j.getObjValAs? String "py"
+    let sv ← strOf j "s"
+    match py with
+    | "bool" => pure (.const (.bool (sv == "True".toList)))
+    | "none" => pure (.const .null)
+    | _ => pure (.const (.other sv))
   | "TYPE" => do pure (.type (← strOf j "t"))
   | "REGEX" => do pure (.regex (← strOf j "p"))
   | "MIN_LENGTH" => do
